@@ -1,3 +1,4 @@
+//go:build !verif
 // +build !verif
 
 // Package verifhook provides durable-write failpoints for verification builds.
